@@ -73,3 +73,22 @@ Section File.
     split; [exact Ht|]. rewrite <- (map_length e_tag es), Ht. apply map_length.
   Qed.
 End File.
+
+(* the source's way of holding the decode target (translate jsontarget) *)
+Lemma scan_entities_zeroed t : target_zeroed t = true -> forall ls, scan_entities t ls = lines_entities ls.
+Proof.
+  destruct t as [|fs]; intros H ls; [reflexivity|].
+  cbn [scan_entities]. apply reuse_reset_all. intros e.
+  cbn [target_zeroed forallb] in H. repeat (apply andb_prop in H; destruct H as [?H H]).
+  unfold clear_fields, fresh_entity.
+  repeat match goal with Hx : resets _ _ = true |- _ => rewrite Hx; clear Hx end. reflexivity.
+Qed.
+
+(* a reused target whose tag field is not among the reset ones carries tags over *)
+Lemma scan_entities_tag_kept fs : resets fs FTag = false ->
+  forall ls, map j_tag (scan_entities (TReused fs) ls) = carried_tags [] ls.
+Proof.
+  intros H ls. cbn [scan_entities].
+  rewrite (reuse_keeping_tag (clear_fields fs)); [reflexivity|].
+  intros e. unfold clear_fields. cbn [j_tag]. rewrite H. reflexivity.
+Qed.
